@@ -558,5 +558,5 @@ func runR37(c *RuleCtx) {
 		c.badP(props, key, c.pos(finds[0].at), what,
 			"a posting can be added while the coder still has the placeholder chunk size (or the previous term's): the reader derives the chunk size from this term's cardinality and will look in the wrong chunk", wit...)
 	}
-	c.add(statusOf(n >= 4), "sized-before-add/sites", "-", "the reused int coders are found (pinned tree: tfEncoder and locEncoder in writeDicts and in mergeAndPersistInvertedSection)", fmt.Sprintf("found %d", n), []string{"C01", "C06"}, nil)
+	c.add(statusOf(n >= half(4)), "sized-before-add/sites", "-", "the reused int coders are found (pinned tree: tfEncoder and locEncoder in writeDicts and in mergeAndPersistInvertedSection)", fmt.Sprintf("found %d", n), []string{"C01", "C06"}, nil)
 }
